@@ -32,7 +32,7 @@ Record Solver := mkSolver {
   sv_setup_done : bool;
   sv_refine : bool;
   sv_info : Info;
-  sv_out : option ResultOut;      (* result vectors as left by the last solve() (None before the first) *)
+  sv_out : ResultOut;             (* result vectors as left by the last solve() (zero after setup) *)
   sv_calls : nat                  (* factorisation calls consumed from the fault plan *)
 }.
 #[export] Instance etaSolver : Settable _ := settable! mkSolver
@@ -56,6 +56,11 @@ Definition empty_info (S : Settings) : Info :=
      i_dual_rel_inf := 0; i_primal_obj := 0; i_dual_obj := 0; i_duality_gap := 0; i_duality_gap_rel := 0;
      i_factor_retires := 0; i_reg_limit := reg_lower_limit S; i_no_primal_update := 0; i_no_dual_update := 0 |}.
 
+Definition zero_out (n p m : nat) : ResultOut :=
+  {| o_x := vconst n 0; o_y := vconst p 0; o_z := vconst m 0; o_z_lb := vconst n 0; o_z_ub := vconst n 0;
+     o_s := vconst m 0; o_s_lb := repeat (Fin 0) n; o_s_ub := repeat (Fin 0) n;
+     o_zeta := vconst n 0; o_lambda := vconst p 0; o_nu := vconst m 0; o_nu_lb := vconst n 0; o_nu_ub := vconst n 0 |}.
+
 (* setup_impl.  A is p x n given as n columns of length p; AT is stored as p columns of length n. *)
 Definition setup (S : Settings) (n p m : nat) (B : Blocks) : res Solver :=
   match b_P B, b_c B with
@@ -75,7 +80,7 @@ Definition setup (S : Settings) (n p m : nat) (B : Blocks) : res Solver :=
     do '(pc, d) <- scale_data K pc0 d0 false (preconditioner_scale_cost S) (preconditioner_iter S) ;;
     do k <- kkt_init d (rho_init S) (delta_init S) junk ;;
     Ok {| sv_set := S; sv_data := d; sv_pc := pc; sv_kkt := k; sv_kkt_init_state := true; sv_setup_done := true;
-          sv_refine := iterative_refinement_always_enabled S; sv_info := empty_info S; sv_out := None; sv_calls := 0 |}
+          sv_refine := iterative_refinement_always_enabled S; sv_info := empty_info S; sv_out := zero_out n p m; sv_calls := 0 |}
   | _, _ => Err Shape
   end.
 
@@ -108,13 +113,16 @@ Definition update (sv : Solver) (B : Blocks) (reuse : bool) : res Solver :=
 
 Definition ext_of (v : Vec) : list ext := map Fin v.
 
-(* previous result vectors as solve_impl sees them on entry (packed prefixes in scaled space are irrelevant:
-   every one of them is overwritten before use, except on the first-solve retry path, which reads s and z) *)
-Definition entry_iterate (d : Data) : Iterate :=
-  {| x := vconst (d_n d) junk; y := vconst (d_p d) junk; z := vconst (d_m d) junk;
-     z_lb := vconst (d_nlb d) junk; z_ub := vconst (d_nub d) junk;
-     s := vconst (d_m d) junk; s_lb := vconst (d_nlb d) junk; s_ub := vconst (d_nub d) junk;
-     zeta := []; lambda := []; nu := []; nu_lb := []; nu_ub := [] |}.
+(* the result arrays as solve_impl sees them on entry: they still hold the (user-space, re-indexed) output of the
+   previous solve; s and z are reset to 1 right away, x, y and the proximal centres are overwritten by the initial
+   point -- unless the initial factorisation gives up (NUMERICS), in which case they are returned as they are
+   (unscaled and re-indexed once more by solve()). *)
+Definition entry_iterate (d : Data) (o : ResultOut) : Iterate :=
+  {| x := o_x o; y := o_y o; z := vconst (d_m d) 1;
+     z_lb := vconst (d_nlb d) 1; z_ub := vconst (d_nub d) 1;
+     s := vconst (d_m d) 1; s_lb := vconst (d_nlb d) 1; s_ub := vconst (d_nub d) 1;
+     zeta := o_zeta o; lambda := o_lambda o; nu := o_nu o;
+     nu_lb := head (d_nlb d) (o_nu_lb o); nu_ub := head (d_nub d) (o_nu_ub o) |}.
 
 Definition unscale_and_restore (sv : Solver) (it : Iterate) : res ResultOut :=
   let d := sv_data sv in let pc := sv_pc sv in let n := d_n d in
@@ -138,20 +146,18 @@ Definition solve (fault : nat -> bool) (sv : Solver) : res (Solver * Status) :=
                 <| i_factor_retires := 0%Z |> <| i_no_primal_update := 0%Z |> <| i_no_dual_update := 0%Z |>
                 <| i_mu := 0 |> <| i_sigma := 0 |> <| i_primal_step := 0 |> <| i_dual_step := 0 |>
                 <| i_rho := rho_init S |> <| i_delta := delta_init S |> in
-  let it0 := entry_iterate d in
+  let it0 := entry_iterate d (sv_out sv) in
   let st0 := {| st_it := it0; st_inf := inf0; st_kkt := sv_kkt sv; st_refine := sv_refine sv;
                 st_res := {| rx_nr := []; ry_nr := []; rz_nr := []; rz_lb_nr := []; rz_ub_nr := [] |};
                 st_calls := sv_calls sv |} in
-  do st1 <- (if sv_kkt_init_state sv then Ok st0
-          else
-            let it1 := it0 <| s := vconst (d_m d) 1 |> <| s_lb := vconst (d_nlb d) 1 |> <| s_ub := vconst (d_nub d) 1 |>
-                           <| z := vconst (d_m d) 1 |> <| z_lb := vconst (d_nlb d) 1 |> <| z_ub := vconst (d_nub d) 1 |> in
-            do_update_scalings d (st0 <| st_it := it1 |>)) ;;
+  let it1 := it0 in
+  do st1 <- (if sv_kkt_init_state sv then Ok (st0 <| st_it := it1 |>)
+          else do_update_scalings d (st0 <| st_it := it1 |>)) ;;
   do '(st2, ok) <- init_factor K S d fault (init_fuel S) st1 ;;
   let fin (st : St) (it : Iterate) :=
     do out <- unscale_and_restore sv it ;;
     Ok (sv <| sv_kkt := st_kkt st |> <| sv_kkt_init_state := false |> <| sv_refine := st_refine st |>
-           <| sv_info := st_inf st |> <| sv_out := Some out |> <| sv_calls := st_calls st |>, i_status (st_inf st)) in
+           <| sv_info := st_inf st |> <| sv_out := out |> <| sv_calls := st_calls st |>, i_status (st_inf st)) in
   if negb ok then fin st2 (st_it st2)
   else
     do st3 <- initial_point K S d (round_cp cp_bits) (st2 <| st_inf := (st_inf st2) <| i_factor_retires := 0%Z |> |>) ;;
